@@ -26,9 +26,13 @@ pub fn gen_case(t: &mut Tape) -> Case {
     // dialect-sensitive constructs on purpose: takes, `/`, `//`, f-strings, group-take
     cfg.hazards = vec!["int_divi", "open_take"];
     let c = c01::gen_case(t, cfg);
-    Case {
-        source: print::program(&c.prog),
+    let mut source = print::program(&c.prog).trim_end().to_string();
+    // dialect-sensitive tails: std.math / std.text / date literals / casts / `loop` (WITH RECURSIVE)
+    if t.chance(1, 2) {
+        source.push_str(*t.pick(crate::prop::c07::EXTRAS));
     }
+    source.push('\n');
+    Case { source }
 }
 
 fn show(c: &Compiled) -> String {
